@@ -136,7 +136,7 @@ def batched_tie(ctx):
     rng = np.random.default_rng(ctx.np_seed)
     shapes = [(5,), (3, 4)] if ctx.quick() else [(7,), (3, 4), (2, 3, 2), (1,), (40,)]
     ops, impl = [], []
-    for n in ([1, 2, 5, 12, 31] if ctx.quick() else [1, 2, 3, 5, 8, 12, 16, 20, 31, 32]):
+    for n in ([1, 2, 5, 12, 31] if ctx.quick() else [1, 2, 3, 5, 8, 12, 16, 20, 31]):
         for shp in shapes:
             F = rng.integers(0, 2, size=shp + (2 * n + 2,), dtype=np.uint8)
             flat = F.reshape(-1, 2 * n + 2)
@@ -146,7 +146,7 @@ def batched_tie(ctx):
                 ops.append(f'C08 tostr {n} {bits(f)}'); impl.append(f'{s1} {sign_to_exp(g1)}')
                 ops.append(f'C08 toindex {n} {bits(f)}'); impl.append(str(int(i1)))
             if n <= 31:
-                ind = rng.integers(0, 4 ** n, size=shp, dtype=np.uint64) if n < 32 else None
+                ind = rng.integers(0, 4 ** n, size=shp, dtype=np.uint64)
                 F2 = G.pauli_index_to_F2(ind, n, with_sign=True)
                 S2 = G.pauli_index_to_str(ind, n)
                 for i1, f, s1 in zip(ind.reshape(-1), F2.reshape(-1, 2 * n + 2), np.asarray(S2).reshape(-1)):
